@@ -18,8 +18,8 @@ Open Scope Z_scope.
 (* ---- per-run table obligations (the tables are regenerated from /repo before this file is compiled) ---- *)
 
 (* every documented /v3 pattern is registered with its method and the handler the model describes, exactly
-   once; every registration has a model case; segments agree with patterns; the only router option set is
-   NotFound *)
+   once; every registration has a model case; segments agree with patterns; NotFound is set and no router field
+   outside allowed_router_opts (the four redirect / 405 / OPTIONS switches) is assigned *)
 Theorem C16_route_table_obligation : route_table_ok RouteTable.table RouteTable.router_opts = true.
 Proof. vm_compute. reflexivity. Qed.
 Print Assumptions C16_route_table_obligation.
@@ -45,8 +45,8 @@ Print Assumptions C16_handle_total.
 Theorem C16_serve_total :
   forall tbl opts, route_table_ok tbl opts = true ->
   forall (b : backend), backend_typed b ->
-  forall (method path : bytes) (reqbody : Z) (cfg : tree),
-    snd (serve (compile_table tbl) method path reqbody b cfg) <> Crash.
+  forall (ra : bytes -> bytes -> option Z) (method path : bytes) (reqbody : Z) (cfg : tree),
+    snd (serve ra (compile_table tbl) method path reqbody b cfg) <> Crash.
 Proof. exact serve_total. Qed.
 Print Assumptions C16_serve_total.
 
@@ -123,8 +123,8 @@ Theorem C16_serve_total_reachable :
     StorageProofs.wf_hist h ->
     Storage.run cf (Storage.init_state cls) h = Some (st, reps) ->
     groups_bounded st ->
-    forall now minimum allowed enow ready (method path : bytes) (reqbody : Z) (cfg : tree),
-      snd (serve (compile_table tbl) method path reqbody
+    forall now minimum allowed enow ready (ra : bytes -> bytes -> option Z) (method path : bytes) (reqbody : Z) (cfg : tree),
+      snd (serve ra (compile_table tbl) method path reqbody
                  (composed_backend intern name_of cf now st minimum allowed enow ready) cfg) <> Crash.
 Proof. exact serve_total_reachable. Qed.
 Print Assumptions C16_serve_total_reachable.
@@ -172,33 +172,47 @@ Print Assumptions C16_envelope_unknown_delete_refuted.
 
 (* ---- "unrouted paths get 404" ----
    FULL STATEMENT of the text (every method and path that matches no registration is answered 404) is FALSE of the
-   router Burrow uses: httprouter answers some of them itself -- 301/307 redirect when the path with its trailing slash
-   toggled, or its cleaned / case-corrected form, is registered; 405 + Allow when the path is registered under another
-   method; 200 + Allow for OPTIONS on such a path (C16_ex_unrouted_kinds).  [router_level] is the specification-level
-   description of that behaviour (router.go ServeHTTP of httprouter v1.3.0, default options; trusted, compared with the real
-   router's status code on every unrouted case).  Proved, and exactly what is tied: a request that matches no registration
-   and is not answered at router level is handed to NotFound => 404, error=true, no backend request; the others get
-   one of the four router-level codes, again without any handler or backend request. *)
+   router Burrow uses: httprouter answers some of them itself -- 301/307 redirect when its radix tree recommends the path
+   with the trailing slash toggled or finds the cleaned path case-insensitively; 405 + Allow when the path is registered
+   under another method; 200 + Allow for OPTIONS on such a path.  Which paths these are depends on the shape of the radix
+   tree (GET /v3/kafka/ is redirected, GET /v3/kafka/c1/ is a 404), which is not modelled: the router's choice is the
+   trusted function [ra] (Some code = answered by the router, None = handed to NotFound).  Proved, and exactly what is tied:
+     - whatever [ra] is, a request it hands to NotFound is answered 404, error=true, no backend request (C16_unrouted_404);
+     - [router_level_possible] = false is a modelled region (not "*", cleaned path not the root, neither the path nor its
+       cleaned form with or without trailing slash fits any registration of any method, ASCII-case-insensitively and with
+       parameters allowed to be empty) in which the router never answers by itself: that constraint on [ra]
+       ([router_answer_sound]) is compared with the real router on every unrouted case of every run, and under it those
+       paths get 404 (C16_unrouted_404_outside_router_region);
+     - inside the region the answer is the router's (observed and accepted by the oracle: 404, 301, 307, 405, 200), never a
+       handler's, never with a backend request (C16_unrouted_router_level, C16_unrouted_no_backend). *)
 Theorem C16_unrouted_404 :
-  forall (tbl : list brow) (method path : bytes) (reqbody : Z) (b : backend) (cfg : tree),
+  forall (ra : bytes -> bytes -> option Z) (tbl : list brow) (method path : bytes) (reqbody : Z) (b : backend) (cfg : tree),
     dispatch tbl method path = None ->
-    router_level tbl method path = None ->
-    serve tbl method path reqbody b cfg = ([], Resp 404 false (BJson true true false None)).
+    ra method path = None ->
+    serve ra tbl method path reqbody b cfg = ([], Resp 404 false (BJson true true false None)).
 Proof. exact unrouted_404. Qed.
 Print Assumptions C16_unrouted_404.
 
-Theorem C16_unrouted_router_level :
-  forall (tbl : list brow) (method path : bytes) (reqbody : Z) (b : backend) (cfg : tree) (code : Z),
+Theorem C16_unrouted_404_outside_router_region :
+  forall (ra : bytes -> bytes -> option Z) (tbl : list brow), router_answer_sound tbl ra ->
+  forall (method path : bytes) (reqbody : Z) (b : backend) (cfg : tree),
     dispatch tbl method path = None ->
-    router_level tbl method path = Some code ->
-    serve tbl method path reqbody b cfg = ([], Resp code false BOpaque) /\
-    (code = 301 \/ code = 307 \/ code = 405 \/ code = 200).
+    router_level_possible tbl path = false ->
+    serve ra tbl method path reqbody b cfg = ([], Resp 404 false (BJson true true false None)).
+Proof. exact unrouted_404_outside_router_region. Qed.
+Print Assumptions C16_unrouted_404_outside_router_region.
+
+Theorem C16_unrouted_router_level :
+  forall (ra : bytes -> bytes -> option Z) (tbl : list brow) (method path : bytes) (reqbody : Z) (b : backend) (cfg : tree) (code : Z),
+    dispatch tbl method path = None ->
+    ra method path = Some code ->
+    serve ra tbl method path reqbody b cfg = ([], Resp code false BOpaque).
 Proof. exact unrouted_router_level. Qed.
 Print Assumptions C16_unrouted_router_level.
 
 Theorem C16_unrouted_no_backend :
-  forall (tbl : list brow) (method path : bytes) (reqbody : Z) (b : backend) (cfg : tree),
-    dispatch tbl method path = None -> fst (serve tbl method path reqbody b cfg) = [].
+  forall (ra : bytes -> bytes -> option Z) (tbl : list brow) (method path : bytes) (reqbody : Z) (b : backend) (cfg : tree),
+    dispatch tbl method path = None -> fst (serve ra tbl method path reqbody b cfg) = [].
 Proof. exact unrouted_no_backend. Qed.
 Print Assumptions C16_unrouted_no_backend.
 
@@ -206,14 +220,14 @@ Print Assumptions C16_unrouted_no_backend.
 Theorem C16_serve_envelope :
   forall tbl opts, route_table_ok tbl opts = true ->
   forall (b : backend), backend_typed b ->
-  forall (method path : bytes) (reqbody : Z) (cfg : tree),
+  forall (ra : bytes -> bytes -> option Z) (method path : bytes) (reqbody : Z) (cfg : tree),
     match dispatch (compile_table tbl) method path with
-    | None => fst (serve (compile_table tbl) method path reqbody b cfg) = [] /\
-              (router_level (compile_table tbl) method path = None ->
-               serve (compile_table tbl) method path reqbody b cfg = ([], default_handler))
+    | None => fst (serve ra (compile_table tbl) method path reqbody b cfg) = [] /\
+              (ra method path = None ->
+               serve ra (compile_table tbl) method path reqbody b cfg = ([], default_handler))
     | Some (row, ps) =>
         exists r, br_route row = Some r /\
-          serve (compile_table tbl) method path reqbody b cfg = handle r ps reqbody b cfg /\
+          serve ra (compile_table tbl) method path reqbody b cfg = handle r ps reqbody b cfg /\
           snd (handle r ps reqbody b cfg) <> Crash /\
           (is_v3 r = true -> present r ps reqbody b cfg ->
              exists st, snd (handle r ps reqbody b cfg) = Resp 200 true (BJson false true true st)) /\
@@ -291,7 +305,7 @@ Theorem C16_route_table_complete :
                           In (RtRow m p segs (route_handler r) reg) tbl) /\
     (forall r, count_rows (row_is r) tbl = 1%nat /\ count_rows (row_same_path r) tbl = 1%nat) /\
     (forall row, In row tbl -> exists r, route_of_row row = Some r /\ row_is r row = true) /\
-    (forall o, In o opts -> fst o = "NotFound"%string).
+    (forall o, In o opts -> In (fst o) allowed_router_opts) /\ (exists o, In o opts /\ fst o = "NotFound"%string).
 Proof. exact route_table_complete. Qed.
 Print Assumptions C16_route_table_complete.
 
@@ -362,22 +376,22 @@ Proof. exact envelope_example_module. Qed.
 Example C16_ex_kelvin_sign_names_module :
   present RCfgConsumerDetail [(s_name, kelvin_afka)] 2 example_backend kelvin_cfg /\
   snd (handle RCfgConsumerDetail [(s_name, kelvin_afka)] 2 example_backend kelvin_cfg) = Resp 200 true (BJson false true true None) /\
-  unknown_full RCfgConsumerDetail [(s_name, [226; 132] ++ pb "afka")] example_backend kelvin_cfg.
+  unknown_full RCfgConsumerDetail [(s_name, kelvin_truncated)] example_backend kelvin_cfg.
 Proof. exact kelvin_sign_names_module. Qed.
 
-(* the kinds of unrouted requests on a three-row table: NotFound 404; trailing-slash 301; cleaned, case-corrected path
-   301; 307 for a non-GET method; 405; OPTIONS 200; OPTIONS on an unregistered path => NotFound *)
-Example C16_ex_unrouted_kinds :
-  router_level mini_table (pb "GET") (pb "/v3/no/such/uri") = None /\
-  snd (serve mini_table (pb "GET") (pb "/v3/no/such/uri") 2 example_backend (Node KNil)) = Resp 404 false (BJson true true false None) /\
+(* unrouted requests on a three-row table: outside the region where the router may answer by itself, and inside it
+   (trailing slash, case / "//" / "." variants, a path registered under another method, the root) *)
+Example C16_ex_unrouted_region :
+  dispatch mini_table (pb "GET") (pb "/v3/no/such/uri") = None /\
+  router_level_possible mini_table (pb "/v3/no/such/uri") = false /\
+  router_level_possible mini_table (pb "/v3/kafka/c1/extra") = false /\
   dispatch mini_table (pb "GET") (pb "/v3/kafka/") = None /\
-  router_level mini_table (pb "GET") (pb "/v3/kafka/") = Some 301 /\
-  router_level mini_table (pb "GET") (pb "/V3//Kafka/./c1") = Some 301 /\
-  router_level mini_table (pb "DELETE") (pb "/v3/kafka/c1/consumer/g/") = Some 307 /\
-  router_level mini_table (pb "PUT") (pb "/v3/kafka") = Some 405 /\
-  router_level mini_table (pb "OPTIONS") (pb "/v3/kafka/c1") = Some 200 /\
-  router_level mini_table (pb "OPTIONS") (pb "/nothing") = None.
-Proof. exact unrouted_redirect_example. Qed.
+  router_level_possible mini_table (pb "/v3/kafka/") = true /\
+  router_level_possible mini_table (pb "/V3//Kafka/./c1") = true /\
+  dispatch mini_table (pb "PUT") (pb "/v3/kafka") = None /\
+  router_level_possible mini_table (pb "/v3/kafka") = true /\
+  router_level_possible mini_table (pb "/./.") = true.
+Proof. exact unrouted_region_example. Qed.
 
 (* the contract is needed: FetchClusters answered with nil panics handleClusterList *)
 Example C16_ex_untyped_backend_crashes :
